@@ -24,7 +24,7 @@ CLAIMED = {
     "C08": ("Both copies of into_rangemap_safe (minidump-common trait and the symbol parser's) run for real on 2 (thorough: 3) entries with arbitrary (base, size, value) over all of u64; the third-party RangeMap::try_from_iter is replaced "
             "by a recorder that returns Ok iff its documented precondition (sorted, pairwise disjoint) holds and stores what it was handed. Decides: building never fails, stored ranges sorted/disjoint, every address of a stored range is covered by an "
             "input entry with that value, an entry intersecting no other is kept for every address inside it. RangeMap::get checked directly on fixed 2-element maps; memory_range() constructors checked for None iff size 0 or overflow. "
-            "Not decided: typed wrappers as such, lists longer than 3, the unloaded-module filter lookup.",
+            "MinidumpUnloadedModuleList::modules_at_address on three possibly overlapping unloaded modules reports exactly the modules covering the address. Not decided: typed wrappers as such, lists longer than 3, the sorts inside the two from_modules.",
             "2 entries (quick), 3 entries (thorough)"),
     "C09": ("The numeric field kernels hex_str::<u64>, hex_str::<u32>, decimal_u32 on every byte string up to two bytes beyond their digit caps, against a reference fold: digits consumed, value, overflow rejection, no panic; and the parser-local range-map builder that finish() ends in (its unwrap can never fire, checked up to the range_map constructor's contract on 2 records). Not decided (the larger part of the property): the nom line grammar, parse_more/finish_item, the 10 KiB..160 KiB buffer state machine.",
             "inputs of at most 18 / 10 / 12 bytes; 2 records"),
